@@ -134,7 +134,7 @@ def run_case(case, res, verbose=False):
         if case.get('entry') == 'slice1':
             return  # the slice interface may refuse what the element interface accepts; only wrong results count for this entry
         in_pattern = any(isinstance(O.get_path(ptree, path[:k]), ast.pattern) for k in range(len(path)))
-        own_pars_only = (csrc.startswith('(') and '\n' in csrc) or (in_pattern and '(' in csrc and not csrc.endswith(')'))  # a child that cannot be written without its parentheses / a dotted name with grouping parentheses inside (no such thing in a pattern)
+        own_pars_only = (csrc.startswith('(') and '\n' in csrc) or (in_pattern and '(' in csrc and not csrc.endswith(')')) or (in_pattern and '\n' in csrc)  # a child that cannot be written without its parentheses / a dotted name with grouping parentheses inside (no such thing in a pattern)
         if exp_status == 'ok' and not isinstance(exc, NotImplementedError) and form in ('src', 'ast', 'fst') and \
                 not (in_pattern and own_pars_only):  # expressions inside patterns cannot be parenthesized: refusing is right
             res.fail(cid, 'refused-valid-request:' + exc.__class__.__name__,
@@ -149,7 +149,8 @@ def run_case(case, res, verbose=False):
     if bad:
         # input-side fact for the known-finding selector: the caller asked to keep the new code's own parentheses (pars=True)
         slot_parent = O.get_path(ptree, path[:-1])
-        params = dict(case, pars_true_own_parens=bool(opts.get('pars') is True and form in ('srcpar', 'fstpar')),
+        params = dict(case, multiline_into_pattern_value=bool('\n' in csrc and isinstance(slot_parent_ := O.get_path(ptree, path[:-1]), ast.MatchValue)),
+                      pars_true_own_parens=bool(opts.get('pars') is True and form in ('srcpar', 'fstpar')),
                       slot=f'{slot_parent.__class__.__name__}.{path[-1][0]}',
                       child_kind={'Starred': 'Starred', 'Yield': 'Yield', 'YieldFrom': 'Yield'}.get(cast.__class__.__name__, 'other'))
         res.fail(cid, 'C01:source-does-not-parse' if bad.startswith('source does not parse') else 'C01:live-tree-differs-from-parse',
